@@ -98,37 +98,46 @@ def getItem (s : State) (n : String) : Except Err (State × GRec) :=
       | some (r, _) => .ok (s', r)
       | none => .error .keyError
 
+/-- `self._unicodeData.removeGlyphData(name, unicodes)` when the map exists -/
+def forgetUni (s : State) (n : String) (us : List Nat) : State :=
+  { s with uni := s.uni.map (fun m => uniRemove m n us) }
+
+/-- the bookkeeping part of `_deleteGlyph` -/
+def dropGlyph (s : State) (n : String) : State :=
+  { s with
+    loaded := AL.erase s.loaded n
+    keys := s.keys.filter (· ≠ n)
+    sched := if onDisk s n then addKey s.sched n else s.sched }
+
 /-- `_deleteGlyph` (the unicode data part touches `self[name]`, i.e. may load the glyph) -/
 def deleteGlyph (s : State) (n : String) : Except Err State :=
-  let s1 : Except Err State := match s.uni with
-    | none => .ok s
-    | some _ =>
-      match getItem s n with
-      | .error e => .error e
-      | .ok (s', r) => .ok { s' with uni := s'.uni.map (fun m => uniRemove m n r.unicodes) }
-  match s1 with
-  | .error e => .error e
-  | .ok s1 =>
-    .ok { s1 with
-      loaded := AL.erase s1.loaded n
-      keys := s1.keys.filter (· ≠ n)
-      sched := if onDisk s1 n then addKey s1.sched n else s1.sched }
+  match s.uni with
+  | none => .ok (dropGlyph s n)
+  | some _ =>
+    match getItem s n with
+    | .error e => .error e
+    | .ok (s', r) => .ok (dropGlyph (forgetUni s' n r.unicodes) n)
 
 /-- `newGlyph` -/
 def newGlyph (s : State) (n : String) : Except Err State :=
-  let s1 : Except Err State :=
-    if n ∈ visible s ∧ s.uni.isSome then
-      match getItem s n with
-      | .error e => .error e
-      | .ok (s', r) => .ok { s' with uni := s'.uni.map (fun m => uniRemove m n r.unicodes) }
-    else .ok s
-  match s1 with
-  | .error e => .error e
-  | .ok s1 => .ok (insertGlyph s1 n {} true)
+  if n ∈ visible s ∧ s.uni.isSome then
+    match getItem s n with
+    | .error e => .error e
+    | .ok (s', r) => .ok (insertGlyph (forgetUni s' n r.unicodes) n {} true)
+  else .ok (insertGlyph s n {} true)
 
 /-- `del layer[name]` -/
 def delete (s : State) (n : String) : Except Err State :=
   if n ∈ visible s then deleteGlyph s n else .error .keyError
+
+def withUnicodes (r : GRec) (us : List Nat) : GRec := { r with unicodes := us }
+
+def withRest (r : GRec) (comps : List String) (image : Option String) (oload ofast : Bool) : GRec :=
+  { r with comps := comps, image := image, outlineLoaded := oload, outlineFast := ofast }
+
+/-- replace the record of a loaded glyph (and mark it dirty), with a new unicode map -/
+def setLoaded (s : State) (n : String) (r : GRec) (u : Option Cmap) : State :=
+  { s with loaded := AL.set s.loaded n (r, true), uni := u }
 
 /-- `glyph.unicodes = us` on `layer[n]` (setter guard, then `Layer._glyphUnicodesChange`) -/
 def setUnicodes (s : State) (n : String) (us : List Nat) : Except Err State :=
@@ -136,9 +145,7 @@ def setUnicodes (s : State) (n : String) (us : List Nat) : Except Err State :=
   | .error e => .error e
   | .ok (s1, r) =>
     if r.unicodes = us then .ok s1
-    else .ok { s1 with
-      loaded := AL.set s1.loaded n ({ r with unicodes := us }, true)
-      uni := s1.uni.map (fun m => uniAdd (uniRemove m n r.unicodes) n us) }
+    else .ok (setLoaded s1 n (withUnicodes r us) (s1.uni.map (fun m => uniAdd (uniRemove m n r.unicodes) n us)))
 
 /-- any other edit of `layer[n]` visible to layer-level queries (components, image, outline) -/
 def editRest (s : State) (n : String) (comps : List String) (image : Option String)
@@ -146,8 +153,7 @@ def editRest (s : State) (n : String) (comps : List String) (image : Option Stri
   match getItem s n with
   | .error e => .error e
   | .ok (s1, r) =>
-    let r' : GRec := { r with comps := comps, image := image, outlineLoaded := oload, outlineFast := ofast }
-    .ok { s1 with loaded := AL.set s1.loaded n (r', true) }
+    .ok (setLoaded s1 n (withRest r comps image oload ofast) s1.uni)
 
 /-- `layer[old].name = new` (`Glyph._set_name` guard, then `Layer._glyphNameChange`) -/
 def rename (s : State) (old new : String) : Except Err State :=
@@ -158,9 +164,7 @@ def rename (s : State) (old new : String) : Except Err State :=
     else
       match deleteGlyph s1 old with
       | .error e => .error e
-      | .ok s2 =>
-        let s3 := { s2 with uni := s2.uni.map (fun m => uniRemove m old r.unicodes) }
-        .ok (insertGlyph s3 new r true)
+      | .ok s2 => .ok (insertGlyph (forgetUni s2 old r.unicodes) new r true)
 
 /-- `insertGlyph(glyph, name)` = `newGlyph(name)` then `copyDataFromGlyph` -/
 def insert (s : State) (n : String) (r : GRec) : Except Err State :=
